@@ -3,7 +3,7 @@ from contracts_types import *
 NAME = 'live'
 FEATURES = []
 USES = ['use vstd::string::*;', 'use std::collections::HashSet;', 'use vstd::std_specs::hash::*;']
-PRELUDE = ['common.shim.rs', 'error.spec.rs', 'evnodes.spec.rs', 'live.shim.rs', 'live.spec.rs']
+PRELUDE = ['common.shim.rs', 'error.spec.rs', 'evnodes.spec.rs', 'budget.spec.rs', 'budget.rel.rs', 'live.shim.rs', 'live.spec.rs']
 POSTLUDE = []
 SUBST = SUBST_COMMON + [
     (r"Cow<'(a|de|_), str>", r"CowStr<'\1>"),
@@ -13,7 +13,16 @@ SUBST = SUBST_COMMON + [
     (r'Option<fn\(&crate::budget::BudgetReport\)>', 'Option<ReportFn>'),
     (r'Option<BudgetReportCallback>', 'Option<ReportCb>'),
     (r'Rc<RefCell<Option<IoError>>>', 'ErrCell'),
+    (r"Cow<'input, Tag>", "CowTag<'input>"),
 ]
+import importlib.util as _ilu, os as _os
+_sp = _ilu.spec_from_file_location('contracts_budget_for_live', _os.path.join(_os.path.dirname(__file__), 'budget.py'))
+_bm = _ilu.module_from_spec(_sp); _sp.loader.exec_module(_bm)
+# BudgetEnforcer::observe: proved in unit `budget`; here only its contract is used (callee contract)
+OBSERVE = dict([x for x in _bm.ITEMS if x['path'].endswith('/fn observe')][0])
+OBSERVE.update(trusted=True, props=[]); OBSERVE.pop('proofs', None); OBSERVE.pop('canaries', None)
+FINALIZE = dict([x for x in _bm.ITEMS if x['path'].endswith('/fn finalize')][0])
+FINALIZE.update(trusted=True, props=[]); FINALIZE.pop('canaries', None)
 L = 'src/live_events.rs'
 D = 'src/de.rs'
 B = 'src/budget.rs'
@@ -28,6 +37,11 @@ ITEMS = location_types() + budget_types() + error_types() + [
     dict(src=B, path='enum EnforcingPolicy', derive='#[derive(PartialEq, Eq, Structural)]'),
     dict(src=B, path='struct BudgetEnforcer'),
     dict(src=B, path='enum ContainerState', derive='#[derive(Clone, Copy)]'),
+    dict(src=SAPHYR + 'parser.rs', path='enum Event'),
+] + parser_span_types() + location_fns(props=('C16',)) + [
+    dict(src='src/de_error.rs', path='fn budget_error', props=['C07'],
+         ensures=[('value', 'r == (Error::Budget { breach: breach, location: Location::UNKNOWN })')]),
+    OBSERVE, FINALIZE,
     dict(src=L, path='struct RecFrame'),
     dict(src=L, path='struct InjectFrame', derive='#[derive(Clone, Copy)]'),
     dict(src=L, path='struct LiveEvents'),
@@ -77,7 +91,7 @@ ITEMS = location_types() + budget_types() + error_types() + [
          ensures=[('slot_exists_nothing_lost', 'anchor_id < final(self).anchors@.len() && anchors_grown(old(self).anchors@, final(self).anchors@)'),
                   ('frame', 'final(self).same_but_rec_and_anchors(old(self)) && final(self).rec_stack == old(self).rec_stack')],
          canaries=['slot_exists_nothing_lost']),
-    dict(src=L, path='impl LiveEvents/fn bump_depth_on_end', props=['C02', 'C08', 'C01'], attrs='#[verifier::loop_isolation(false)]',
+    dict(src=L, path='impl LiveEvents/fn bump_depth_on_end', props=['C02', 'C08', 'C01'],
          loop_rewrites=[(1, 'iter_mut')],
          rewrites=[(r'done\.buf\.into_vec\(\)\.into_boxed_slice\(\)', 'vec_into_boxed(done.buf)', None, 'R8')],
          requires=[('anchor_ids_small_and_distinct', '''forall|a: int, b: int| 0 <= a < old(self).rec_stack@.len() && 0 <= b < old(self).rec_stack@.len() ==>
@@ -123,7 +137,7 @@ ITEMS = location_types() + budget_types() + error_types() + [
                     ('suffix_untouched', 'forall|j: int| __i1 <= j < d0.len() ==> #[trigger] self.rec_stack@[j] == d0[j]')],
                      decreases='d0.len() - __i1'),
              2: dict(invariant=[
-                    ('bounds', 'd0 == old(self).rec_stack@ && a0 == old(self).anchors@ && open_after_end(d0) <= self.rec_stack@.len() <= d0.len()'),
+                    ('bounds', 'd0 == old(self).rec_stack@ && a0 == old(self).anchors@ && 0 <= open_after_end(d0) <= self.rec_stack@.len() <= d0.len()'),
                     ('frame', 'self.same_but_rec_and_anchors(old(self))'),
                     ('ids', '''forall|a: int, b: int| 0 <= a < d0.len() && 0 <= b < d0.len() ==>
                             (#[trigger] d0[a]).id <= usize::MAX - 8 && (a != b ==> d0[a].id != (#[trigger] d0[b]).id)'''),
@@ -139,6 +153,7 @@ ITEMS = location_types() + budget_types() + error_types() + [
                                 && (forall|j: int| self.rec_stack@.len() <= j < d0.len() ==> (#[trigger] d0[j]).id != i) ==>
                             #[trigger] self.anchors@[i] == (if i < a0.len() { a0[i] } else { None })'''),
                     ],
+                     ensures=[('stops_at_first_open_frame', 'self.rec_stack@.len() == open_after_end(d0)')],
                      decreases='self.rec_stack@.len()'),
          },
          canaries=['C02:finished_frames_stored_under_their_anchor']),
@@ -187,4 +202,121 @@ ITEMS = location_types() + budget_types() + error_types() + [
                 Ok(()) => self.error.content() is None,
                 Err(e) => self.error.content() is Some && e == (Error::IOError { cause: self.error.content().unwrap() }) }''')],
          canaries=['C10:stored_io_error_is_reported']),
+    events_trait(),
+    # the event pump itself: assumed contract in this revision (prophecy view pump_future)
+    dict(src=L, path='impl LiveEvents/fn next_impl', trusted=True, props=['C02'],
+         ensures=[('pump', '''final(self).look == old(self).look && final(self).error == old(self).error && match r {
+                Ok(Some(e)) => old(self).pump_future().len() > 0 && e == old(self).pump_future()[0]
+                               && final(self).pump_future() == old(self).pump_future().skip(1) && final(self).last_location == e.spec_location(),
+                Ok(None) => old(self).pump_future().len() == 0 && final(self).pump_future() == old(self).pump_future(),
+                Err(_) => true }''')]),
+    dict(src=L, path='impl Events for LiveEvents', props=['C10', 'C09', 'C16', 'C01'],
+         trait_extra='''
+    spec fn rest(&self) -> Seq<Ev<'de>> {
+        match self.look { Some(e) => seq![e] + self.pump_future(), None => self.pump_future() }
+    }
+''',
+         impl_methods={
+             'next': dict(
+                 ensures=[('C10:io_error_checked_before_any_event', '''old(self).error.content() is Some ==>
+                        r is Err && r->Err_0 is IOError && final(self).look == old(self).look
+                        && final(self).pump_future() == old(self).pump_future()'''),
+                          ('lookahead_served_first', '''old(self).error.content() is None && old(self).look is Some ==>
+                        r == Ok::<Option<Ev<'de>>, Error>(old(self).look) && final(self).look is None
+                        && final(self).last_location == old(self).look.unwrap().spec_location()
+                        && final(self).pump_future() == old(self).pump_future()''')],
+                 proofs=[dict(at='start', text='''
+                     let pf = self.pump_future();
+                     assert((seq![self.look.unwrap()] + pf).skip(1) =~= pf);
+                     assert(self.look is None ==> self.rest() == pf);''')],
+                 canaries=['C10:io_error_checked_before_any_event']),
+             'peek': dict(
+                 rewrites=[(r'Ok\(\(&self\.look\)\.into\(\)\)', 'Ok(self.look.as_ref())', None, 'R20')],
+                 ensures=[('C10:io_error_checked_before_any_event', '''old(self).error.content() is Some ==>
+                        r is Err && r->Err_0 is IOError && final(self).look == old(self).look
+                        && final(self).pump_future() == old(self).pump_future()''')],
+                 proofs=[dict(at='start', text='''
+                     let pf = self.pump_future();
+                     if pf.len() > 0 { assert(seq![pf[0]] + pf.skip(1) =~= pf); }''')],
+                 canaries=['C10:io_error_checked_before_any_event']),
+             'last_location': dict(ensures=[('value', 'r == self.last_location')]),
+             'reference_location': dict(
+                 rewrites=[(r'self\.look\s*\.as_ref\(\)\s*\.map\(\|e\| e\.location\(\)\)\s*\.unwrap_or\(self\.last_location\)',
+                            '(match self.look.as_ref() { Some(e) => e.location(), None => self.last_location })', None, 'R18')],
+                 ensures=[('C16:use_site_is_alias_location_while_replaying', '''r == (
+                        if self.inject@.len() > 0 { self.inject@[self.inject@.len() - 1].reference_location }
+                        else { match self.look { Some(e) => e.spec_location(), None => self.last_location } })''')],
+                 canaries=['C16:use_site_is_alias_location_while_replaying']),
+         }),
+    dict(src=L, path='impl LiveEvents/fn observe_budget_for_replay', props=['C07', 'C08', 'C01'],
+         rewrites=[(r'Cow::Borrowed\(value\)', 'cowstr_borrow(value)', None, 'R8')],
+         requires=[('enforcer_consistent', '''old(self).budget is Some ==> {
+                let b = old(self).budget.unwrap(); b.inv() && within(b.abs(), b.budget, b.per_doc()) && b.room() }''')],
+         ensures=[
+             ('C07:replayed_event_is_charged_once', '''match old(self).budget {
+                None => r is Ok && *final(self) == *old(self),
+                Some(b) => match r {
+                    Ok(()) => final(self).budget is Some && !(*ev is Taken) && exists|raw: Event<'_>| replay_charge_matches(*ev, raw)
+                                && #[trigger] accepted(b.abs(), raw, b.budget, b.per_doc())
+                                && final(self).budget.unwrap().abs() =~~= abs_step(b.abs(), raw, b.per_doc())
+                                && final(self).budget.unwrap().inv(),
+                    Err(e) => true } }'''),
+             ('frame', '''final(self).rec_stack == old(self).rec_stack && final(self).anchors == old(self).anchors
+                && final(self).inject == old(self).inject && final(self).look == old(self).look && final(self).parser == old(self).parser
+                && final(self).total_replayed_events == old(self).total_replayed_events
+                && final(self).per_anchor_expansions == old(self).per_anchor_expansions'''),
+         ],
+         canaries=['C07:replayed_event_is_charged_once']),
+    dict(src=L, path='impl LiveEvents/fn finish', props=['C10', 'C07', 'C01'],
+         rewrites=[(r'callback\(&report\);', 'report_fn_call(callback, &report);', None, 'R8'),
+                   (r'callback\.borrow_mut\(\)\(report\);', 'report_cb_call(callback, report);', None, 'R8'),
+                   (r'report\.breached\.clone\(\)', 'clone_breach(&report.breached)', None, 'R8')],
+         ensures=[
+             ('C10:stored_io_error_is_reported_at_the_end', '''old(self).error.content() is Some ==>
+                    r is Err && r->Err_0 is IOError && final(self).budget == old(self).budget'''),
+             ('C07:delayed_breach_is_surfaced', '''old(self).error.content() is None ==> match old(self).budget {
+                    None => r is Ok,
+                    Some(b) => final(self).budget is None
+                        && (r is Err <==> (b.report.breached is Some
+                                || ratio_breached(b.report.aliases as nat, b.defined_anchors@.len(), b.budget)))
+                        && (r is Err ==> r->Err_0 is Budget) }'''),
+         ],
+         canaries=['C10:stored_io_error_is_reported_at_the_end', 'C07:delayed_breach_is_surfaced']),
+
+    dict(src=L, path='impl LiveEvents/fn skip_to_next_document', props=['C11', 'C07', 'C01'],
+         requires=[('parser_spans_well_formed', 'spans_ok(old(self).parser.pending())'),
+                   ('only_used_with_per_document_enforcement', 'old(self).budget is Some ==> old(self).budget.unwrap().per_doc()')],
+         proofs=[dict(at='start', ghost=True, text='let ghost p0 = self.parser.pending();'),
+                 dict(after='while let Some(item) = self.parser.next() {', text='''
+                     let k = p0.len() - self.parser.pending().len() - 1;
+                     lemma_skip_scan_step(p0.skip(k));
+                     assert(p0.skip(k)[0] == p0[k]);
+                     assert(p0.skip(k).skip(1) =~= p0.skip(k + 1));'''),
+                 dict(after_loop=1, text='assert(self.parser.pending().len() == 0); assert(skip_scan(self.parser.pending()) == (0int, false)); assert(p0.skip(p0.len() as int) =~= self.parser.pending());')],
+         ensures=[
+             ('C11:stops_right_after_the_next_document_start', '''({
+                    let (n, found) = skip_scan(old(self).parser.pending());
+                    r == found && final(self).parser.pending() == old(self).parser.pending().skip(n) })'''),
+             ('C11:replay_and_lookahead_state_dropped', 'final(self).look is None && final(self).inject@.len() == 0 && final(self).rec_stack@.len() == 0'),
+             ('C11:new_document_starts_clean', '''r ==> !final(self).produced_any_in_doc && !final(self).seen_doc_end
+                    && final(self).total_replayed_events == 0
+                    && (forall|j: int| 0 <= j < final(self).anchors@.len() ==> (#[trigger] final(self).anchors@[j]) is None)
+                    && (forall|j: int| 0 <= j < final(self).per_anchor_expansions@.len() ==> (#[trigger] final(self).per_anchor_expansions@[j]) == 0)'''),
+             ('C07:budget_restarts_with_the_new_document', '''r && old(self).budget is Some ==> final(self).budget is Some && ({
+                    let b0 = old(self).budget.unwrap(); let b1 = final(self).budget.unwrap();
+                    b1.budget == b0.budget && b1.policy == b0.policy && (1 <= b0.budget.max_events ==> b1.inv()
+                    && b1.abs() =~~= (Abs { documents: b0.abs().documents, events: 1, ..abs_fresh() })) })'''),
+         ],
+         loops={1: dict(invariant=[
+                    ('cursor', '''p0 == old(self).parser.pending() && spans_ok(p0) && self.parser.pending().len() <= p0.len()
+                        && self.parser.pending() == p0.skip(p0.len() - self.parser.pending().len())'''),
+                    ('scan_so_far', '''({ let k = p0.len() - self.parser.pending().len();
+                        skip_scan(p0) == (k + skip_scan(self.parser.pending()).0, skip_scan(self.parser.pending()).1) })'''),
+                    ('dropped', 'self.look is None && self.inject@.len() == 0 && self.rec_stack@.len() == 0'),
+                    ('budget_kept', '''(old(self).budget is Some ==> self.budget is Some && self.budget.unwrap().per_doc())
+                        && (self.budget is Some ==> old(self).budget is Some && self.budget == old(self).budget)'''),
+                    ],
+                        ensures=[('parser_exhausted', 'self.parser.pending().len() == 0')],
+                        decreases='self.parser.pending().len()')},
+         canaries=['C11:stops_right_after_the_next_document_start', 'C11:new_document_starts_clean']),
 ]
